@@ -22,9 +22,11 @@ import (
 	"path/filepath"
 	"regexp"
 	"runtime"
+	"runtime/pprof"
 	"sort"
 	"strconv"
 	"strings"
+	"sync"
 
 	"github.com/sourcegraph/zoekt"
 	"github.com/sourcegraph/zoekt/index"
@@ -323,13 +325,12 @@ type scenario struct {
 
 func docKey(name, content, version string) string { return name + "\x00" + content + "\x00" + version }
 
-func mkScenario(cs caseSpec, tpls map[string]*template, dir string) *scenario {
+func mkScenario(cs caseSpec, tpls map[string]*template, dir string, g int) *scenario {
 	t := tpls[cs.Template]
 	if t == nil {
 		panic("unknown template " + cs.Template)
 	}
 	r := gen.NewRand(cs.Seed)
-	g := nextGen()
 	sc := &scenario{cs: cs, tpl: t, idCache: map[string]string{}}
 	sc.spec = f1util.BuildSpec{Dir: dir, RepoName: repoName, RepoID: repoID, Gen: g, Delta: cs.Delta, ShardMerging: cs.ShardMerging, ShardMax: shardMax}
 	if cs.Delta {
@@ -814,18 +815,32 @@ func (sc *scenario) inLine(o observed, k string, e2e string) string {
 
 // ---------------------------------------------------------------- running scenarios
 
+// sink buffers the cases of one scenario (scenarios run in parallel, cases are written in scenario order)
+type sink struct {
+	cases  []gen.Case
+	counts map[string]int
+}
+
+func (s *sink) Emit(c gen.Case) { s.cases = append(s.cases, c) }
+func (s *sink) Count(k string, n int) {
+	if s.counts == nil {
+		s.counts = map[string]int{}
+	}
+	s.counts[k] += n
+}
+
 type runner struct {
-	w       *gen.Writer
+	w       *sink
 	root    string
 	tpls    map[string]*template
 	self    string
-	nextDir int
+	nextDir int // index of the scenario being run
+	worker  int
 	stop    *f1util.Session
 	fault   *f1util.Session
 }
 
 func (rn *runner) freshDir() string {
-	rn.nextDir++
 	d := filepath.Join(rn.root, fmt.Sprintf("run%04d", rn.nextDir))
 	must(os.MkdirAll(d, 0o755))
 	return d
@@ -839,7 +854,7 @@ func (rn *runner) emit(sc *scenario, o observed, dir string, k int, isEnd bool, 
 		kk = "end"
 		opsK = -1
 	}
-	lst, problem := sc.listing(dir, o.temps, filepath.Join(rn.root, "scratch"))
+	lst, problem := sc.listing(dir, o.temps, filepath.Join(rn.root, fmt.Sprintf("scratch%d", rn.worker)))
 	view, why := sc.view(dir)
 	c := gen.Case{
 		In:    sc.inLine(o, kk, view),
@@ -883,7 +898,7 @@ func errOf(reply string) string {
 func (rn *runner) runStop(cs caseSpec) {
 	dir := rn.freshDir()
 	copyDir(rn.tpls[cs.Template].Dir, dir)
-	sc := mkScenario(cs, rn.tpls, dir)
+	sc := mkScenario(cs, rn.tpls, dir, 1000+rn.nextDir)
 	req, _ := json.Marshal(sc.spec)
 	var snaps []string
 	var snapOps [][]f1util.FsOp
@@ -915,7 +930,7 @@ func (rn *runner) runStop(cs caseSpec) {
 
 // emitPrefix: like emit, for a crash state: orders from the whole run `all`, operations so far from `pre`.
 func (rn *runner) emitPrefix(sc *scenario, all, pre observed, dir string, k int) {
-	lst, problem := sc.listing(dir, all.temps, filepath.Join(rn.root, "scratch"))
+	lst, problem := sc.listing(dir, all.temps, filepath.Join(rn.root, fmt.Sprintf("scratch%d", rn.worker)))
 	view, why := sc.view(dir)
 	c := gen.Case{
 		In:    sc.inLine(all, strconv.Itoa(k), view),
@@ -947,7 +962,7 @@ func (rn *runner) emitPrefix(sc *scenario, all, pre observed, dir string, k int)
 func (rn *runner) runFault(cs caseSpec) {
 	dir := rn.freshDir()
 	copyDir(rn.tpls[cs.Template].Dir, dir)
-	sc := mkScenario(cs, rn.tpls, dir)
+	sc := mkScenario(cs, rn.tpls, dir, 1000+rn.nextDir)
 	req, _ := json.Marshal(sc.spec)
 	reply, ops, died, err := rn.fault.Do(string(req), nil)
 	if err != nil || died {
@@ -972,7 +987,7 @@ func (rn *runner) runFault(cs caseSpec) {
 func (rn *runner) runOneShot(cs caseSpec) {
 	dir := rn.freshDir()
 	copyDir(rn.tpls[cs.Template].Dir, dir)
-	sc := mkScenario(cs, rn.tpls, dir)
+	sc := mkScenario(cs, rn.tpls, dir, 1000+rn.nextDir)
 	mode := f1util.Mode{KillAt: cs.KillAt}
 	if cs.RenameFailAt > 0 {
 		mode.RenameFail = strconv.Itoa(cs.RenameFailAt)
@@ -1065,6 +1080,12 @@ func main() {
 	}
 	f := gen.ParseFlags()
 	f1util.QuietGC()
+	runtime.GOMAXPROCS(4)
+	if pf := os.Getenv("VERIF_CPUPROFILE"); pf != "" {
+		fh, _ := os.Create(pf)
+		pprof.StartCPUProfile(fh)
+		defer pprof.StopCPUProfile()
+	}
 	log.SetOutput(io.Discard)
 	w := gen.NewWriter(f.Out)
 	defer w.Close()
@@ -1081,9 +1102,10 @@ func main() {
 	}
 	self, err := os.Executable()
 	must(err)
-	rn := &runner{w: w, root: root, self: self, tpls: buildTemplates(root, r.Fork())}
+	tpls := buildTemplates(root, r.Fork())
 
 	var specs []caseSpec
+	nCorpus := 0
 	if f.Replay != "" {
 		var rp struct {
 			Case struct {
@@ -1109,42 +1131,96 @@ func main() {
 				must(err)
 				must(json.Unmarshal(b, &c))
 				specs = append(specs, c.Spec)
-				w.Count("corpus", 1)
+				nCorpus++
 			}
 		}
 		// every template once with a full build and (where possible) a delta build, then random ones
 		for _, k := range templateKeys {
 			specs = append(specs, caseSpec{Mode: "stop", Template: k, NShards: 1 + r.Intn(2), Seed: r.U64(), ShardMerging: true})
 		}
-		for i := 0; i < f.N(14, 120); i++ {
+		for i := 0; i < f.N(14, 50); i++ {
 			specs = append(specs, randomSpec(r, "stop"))
 		}
-		for i := 0; i < f.N(30, 200); i++ {
+		for i := 0; i < f.N(30, 100); i++ {
 			specs = append(specs, randomSpec(r, "fault"))
 		}
-		for i := 0; i < f.N(2, 15); i++ {
+		for i := 0; i < f.N(2, 8); i++ {
 			cs := randomSpec(r, "kill")
 			cs.KillAt = 1 + r.Intn(4)
 			specs = append(specs, cs)
 		}
 	}
 
-	needStop, needFault := false, false
-	for _, cs := range specs {
-		needStop = needStop || cs.Mode == "stop"
-		needFault = needFault || cs.Mode == "fault"
+	// scenarios run on a few workers in parallel (each with its own strace sessions): under strace a build mostly
+	// waits for the tracer to be scheduled, so the waiting overlaps; cases are written in scenario order.
+	w.Count("corpus", nCorpus)
+	const nWorkers = 4
+	sinks := make([]*sink, len(specs))
+	jobs := make(chan int)
+	var wg sync.WaitGroup
+	var firstPanic any
+	var pmu sync.Mutex
+	for wk := 0; wk < nWorkers; wk++ {
+		wg.Add(1)
+		go func(wk int) {
+			defer wg.Done()
+			rn := &runner{root: root, self: self, tpls: tpls, worker: wk}
+			defer func() {
+				if rn.stop != nil {
+					rn.stop.Close()
+				}
+				if rn.fault != nil {
+					rn.fault.Close()
+				}
+			}()
+			for idx := range jobs {
+				func() {
+					defer func() {
+						if p := recover(); p != nil {
+							pmu.Lock()
+							if firstPanic == nil {
+								firstPanic = fmt.Sprintf("scenario %d (%+v): %v", idx, specs[idx], p)
+							}
+							pmu.Unlock()
+						}
+					}()
+					cs := specs[idx]
+					rn.w = &sink{}
+					sinks[idx] = rn.w
+					rn.nextDir = idx + 1
+					var err error
+					if cs.Mode == "stop" && rn.stop == nil {
+						rn.stop, err = f1util.Start(f1util.Mode{StopAtMutations: true}, filepath.Join(root, fmt.Sprintf("stop%d.log", wk)), nil, self, "child")
+						must(err)
+					}
+					if cs.Mode == "fault" && rn.fault == nil {
+						rn.fault, err = f1util.Start(f1util.Mode{RenameFail: "2+3", UnlinkFail: "2+5"}, filepath.Join(root, fmt.Sprintf("fault%d.log", wk)), nil, self, "child")
+						must(err)
+					}
+					rn.run(cs)
+				}()
+			}
+		}(wk)
 	}
-	if needStop {
-		rn.stop, err = f1util.Start(f1util.Mode{StopAtMutations: true}, filepath.Join(root, "stop.log"), nil, self, "child")
-		must(err)
-		defer rn.stop.Close()
+	for i := range specs {
+		jobs <- i
 	}
-	if needFault {
-		rn.fault, err = f1util.Start(f1util.Mode{RenameFail: "2+3", UnlinkFail: "2+5"}, filepath.Join(root, "fault.log"), nil, self, "child")
-		must(err)
-		defer rn.fault.Close()
+	close(jobs)
+	wg.Wait()
+	for _, sk := range sinks {
+		if sk == nil {
+			continue
+		}
+		for _, c := range sk.cases {
+			w.Emit(c)
+		}
+		for k, n := range sk.counts {
+			w.Count(k, n)
+		}
 	}
-	for _, cs := range specs {
-		rn.run(cs)
+	if firstPanic != nil {
+		w.Close()
+		fmt.Fprintln(os.Stderr, "harness failure:", firstPanic)
+		os.Exit(3)
 	}
 }
